@@ -69,6 +69,12 @@ def boundary_histories(rng, tier):
                         left -= d
                     ops = [{"add": muxgen.tc(kind, ts=tts)}] + [{"w": [1, d, 0, False, "bb"]} for d in durs]
                     hs.append({"base": 0, "cfg": dict(muxgen.DEFAULT_CFG, timescale=mts), "ops": ops})
+    # several tracks, one of which crosses 2^32 movie ticks, in every position of the track list (the movie header must widen with the longest)
+    for order in ((5000000, 10), (10, 5000000), (10, 5000000, 20), (5000000, 4999999), (4294967, 4294968, 4294966)):
+        ops = [{"add": muxgen.tc("ttxt", ts=1)} for _ in order]
+        for ti, d in enumerate(order):
+            ops.append({"w": [ti + 1, d, 0, True, "aa"]})
+        hs.append({"base": 0, "cfg": dict(muxgen.DEFAULT_CFG, timescale=1000), "ops": ops})
     for _ in range(60 if tier == "quick" else 1500):
         h = muxgen.random_history(rng, bad=0.0, max_samples=30)
         h["base"] = rng.choice([U32 - rng.randint(1, 4000), U32 + rng.randint(0, 100), rng.randrange(1 << 62)])
